@@ -687,8 +687,21 @@ func (e *Exec) havocAll(st *State) {
 }
 
 func (e *Exec) isZapPrivateComp(n string) bool {
+	if strings.Contains(n, "errArrayElem.") {
+		// pooled scratch wrappers of error arrays: no contract relies on their contents across calls
+		return false
+	}
 	if strings.HasPrefix(n, "T:") || n == "$clk" || strings.HasPrefix(n, "G:") || n == "$held" || n == "$closed" || n == "$once" || n == "$panic" {
 		return true
+	}
+	if strings.HasPrefix(n, "E:") {
+		switch n[2:] {
+		case "bool", "int", "int8", "int16", "int32", "int64", "uint", "uint16", "uint32", "uint64", "uintptr",
+			"float32", "float64", "complex64", "complex128", "string", "__uint8", "time.Duration":
+			// slices of plain values handed to user code (encoders, sinks) are not modified by it:
+			// the same encapsulation rely as for byte slices
+			return true
+		}
 	}
 	if n == "E:uint8" {
 		// byte arrays: user code reaches zap's buffers only through zap's methods and does not
